@@ -7,7 +7,7 @@ EXPLANATION = ('The patterns actually used for matching (remove_unicode_matches 
                'real BooleanModel (symx enumerates the index space through the solver).')
 ASSUMPTIONS = ['contexts: none, "!", ".", parentheses, "well, X please", "ummm X", "X , thanks", surrounding blanks; cases: lower, UPPER, Title, Capitalised',
                'neutral pool of 12 tokens (incl. words that contain an alternative as a substring: yesterday, know, noon, agreed, trueish)']
-OUTSIDE = ['cultures other than English (only English has a choice model in the Python port)', 'skin-tone modifiers after emoji',
+OUTSIDE = ['cultures other than English (only English has a choice model in the Python port)', 
            'ChoiceExtractor.match_value internal scores (the model always reports score 0.0; StringUtility.index_of returns 1 for a missing token, so the internal '
            'score can exceed 1 -- observation, not visible at the API)']
 C = 'recognizers_choice.choice.'
@@ -27,5 +27,9 @@ def obligations(tier):
               encodes=[C + 'extractors:ChoiceExtractor.extract']),
            Ob('O20.3-both', 'sx', 'harness.C20:h_both', timeout=t, descr='both polarities present: one entity, one of the two expressions, with its own polarity',
               bounds='every true x false pair, both orders', encodes=[C + 'extractors:ChoiceExtractor.extract']),
-           Ob('O20.2-thumbs-up', 'fn', 'harness.C20:api_witness_thumbs_up', timeout=t, finding='F11', descr='API witness of known finding F11')]
+           Ob('O20.2-thumbs-up', 'fn', 'harness.C20:api_witness_thumbs_up', timeout=t, finding='F11', descr='API witness of known finding F11'),
+           Ob('O20.4-emoji', 'fn', 'harness.C20:emoji_polarity', slices=[{'emoji': e} for e in ('ok_hand', 'thumbs_down', 'raised_hand_fingers')], timeout=t,
+              descr='the emoji alternatives the English resource names, written as single code points (independent list): alone, with skin-tone modifiers and in 6 punctuation / filler contexts each yields exactly one entity at the emoji with its polarity',
+              bounds='3 emoji x 4 skin tones x 6 contexts (finite grammar, composition check through the real model)'),
+           Ob('O20.4-emoji-known', 'fn', 'harness.C20:emoji_polarity', slices=[{'emoji': 'raised_hand'}], timeout=t, finding='F40', descr='region F40: the raised hand U+270B')]
     return obs
